@@ -52,7 +52,7 @@ def decorate(R, lines):
 
 
 def generate(R, tier):
-    n = 2000 if tier == "quick" else 200000
+    n = 5000 if tier == "quick" else 200000
     for i in range(n):
         lines = D.valid_file(R)
         c = {"stream": "valid", "lines": lines}
